@@ -487,31 +487,47 @@ pub fn run(tier: &str) -> i32 {
         }
     });
     drop(stm);
-    // requests of different clients on ONE database, served concurrently by the HTTP workers: when the burst is over the
-    // connection count of the database is back where it was
+    // requests of different clients on ONE database, served concurrently by the HTTP workers, each with subscriptions of
+    // its own and one on a key all of them watch, while a long-lived session of that database (300 subscriptions) adds
+    // one more subscription: every entry is the command's own, when the burst is over the subscriptions of the requests
+    // are gone, the connection count is back where it was, and the long-lived session hears about the key it subscribed
+    // to during the burst
     let mut shared_bursts = 0u64;
+    let mut shared_subscriptions_released = 0u64;
     {
         let mut adm = crate::common::session::Session::new();
         adm.call(&live.dbs, "auth admin pwd");
         adm.call(&live.dbs, "create-db hshared tok");
         adm.call(&live.dbs, "use-db hshared tok");
         adm.call(&live.dbs, "set k v");
-        adm.disconnect(&live.dbs);
+        let mut resident = crate::common::session::Session::new();
+        resident.call(&live.dbs, "use-db hshared tok");
+        for i in 0..300 {
+            resident.call(&live.dbs, &format!("watch w{}", i));
+        }
+        let base = 2; // adm and resident stay connected
         let bursts = if thorough { 2000 } else { 150 };
         for b in 0..bursts {
-            let barrier = std::sync::Barrier::new(8);
+            let barrier = std::sync::Barrier::new(9);
             let bad = std::sync::Mutex::new(vec![]);
             std::thread::scope(|sc| {
                 for t in 0..8 {
                     let (live, barrier, bad) = (&live, &barrier, &bad);
                     sc.spawn(move || {
                         barrier.wait();
-                        match http_post(&live.http, b"use-db hshared tok;get k", Duration::from_secs(20)) {
-                            Ok(r) if r == "empty;value v\n" => {}
+                        let body = format!("use-db hshared tok;watch b{};watch shared;get k", t);
+                        match http_post(&live.http, body.as_bytes(), Duration::from_secs(20)) {
+                            Ok(r) if r == "empty;empty;empty;value v\n" => {}
                             other => bad.lock().unwrap().push(format!("request {}: {:?}", t, other)),
                         }
                     });
                 }
+                let (live, barrier, resident) = (&live, &barrier, &mut resident);
+                sc.spawn(move || {
+                    barrier.wait();
+                    std::thread::sleep(Duration::from_micros(150 + (b as u64 % 7) * 60));
+                    resident.call(&live.dbs, &format!("watch n{}", b));
+                });
             });
             shared_bursts += 1;
             let bad = bad.into_inner().unwrap();
@@ -519,11 +535,23 @@ pub fn run(tier: &str) -> i32 {
                 v.report(json!({"check": "http", "problem": "entry-is-not-the-commands-own-result", "context": "concurrent-requests-on-one-database"}), json!({"burst": b, "replies": bad}));
                 break;
             }
-            if let Some(r) = wait_released(&live, "hshared", &[], 0) {
-                v.report(json!({"check": "http", "problem": r, "context": "concurrent-requests-on-one-database"}), json!({"burst": b, "requests": 8}));
+            let keys: Vec<String> = (0..8).map(|t| format!("b{}", t)).chain(["shared".to_string()]).collect();
+            if let Some(r) = wait_released(&live, "hshared", &keys, base) {
+                v.report(json!({"check": "http", "problem": r, "context": "concurrent-requests-on-one-database"}), json!({"burst": b, "requests": 8, "each_request": "use-db hshared tok;watch b<t>;watch shared;get k"}));
+                break;
+            }
+            shared_subscriptions_released += 16;
+            resident.drain();
+            adm.call(&live.dbs, &format!("set n{} 1", b));
+            let heard = resident.drain();
+            if !heard.iter().any(|m| m.trim_end() == format!("changed n{} 1", b)) {
+                v.report(json!({"check": "http", "problem": "request-end-dropped-another-sessions-subscription", "context": "concurrent-requests-on-one-database"}),
+                    json!({"burst": b, "resident_session": format!("watch n{} (answered) while 8 requests on the database ended", b), "heard_after_set": heard}));
                 break;
             }
         }
+        resident.disconnect(&live.dbs);
+        adm.disconnect(&live.dbs);
     }
     // the same bodies as one WebSocket frame: executed once each, in order (final state = model)
     let mut ws_frames = 0u64;
@@ -582,6 +610,7 @@ pub fn run(tier: &str) -> i32 {
     ev.set("http_bodies", json!(st.bodies));
     ev.set("commands", json!(st.commands));
     ev.set("bursts_of_8_concurrent_requests_on_one_database", json!(shared_bursts));
+    ev.set("subscriptions_of_concurrent_requests_seen_released", json!(shared_subscriptions_released));
     ev.set("release_checks_after_request", json!(st.release_checks));
     ev.set("ws_frames", json!(ws_frames));
     ev.set("known_findings_seen", json!(v.known_seen()));
